@@ -140,6 +140,24 @@ def session_cases(seed: int, n: int):
         yield pol, {"strict": r.random() < 0.3}, reqs
 
 
+def big_child_sets(seed: int, n: int):
+    """policy sets whose children are LONG (8–14 rules spanning several tiers): a set is decided by the reference evaluation of every
+    child — all its matching rules combine, not only its most specific tier — however many rules the child has"""
+    r = random.Random(seed)
+    shapes = [(a, t, i, at, e) for a in ACTS for t in TYPES for i in IDS for at in ATTRS for e in ("permit", "deny")]
+    for _ in range(n):
+        kids = []
+        for j in range(r.randrange(1, 3)):
+            k = r.randrange(8, 15)
+            rules = [shape(*gen.choice(r, shapes), i) for i in range(k)]
+            # make sure two tiers disagree: an id-specific rule and a type-only rule of opposite effects
+            e = gen.choice(r, ["permit", "deny"])
+            rules[r.randrange(k)] = {"id": f"s{j}", "effect": e, "actions": ["read"], "resource": {"type": "doc", "id": "1"}}
+            rules[r.randrange(k)] = {"id": f"t{j}", "effect": "deny" if e == "permit" else "permit", "actions": ["read"], "resource": {"type": "doc"}}
+            kids.append({"id": f"child{j}", "algorithm": gen.choice(r, gen.ALGOS), "rules": rules})
+        yield {"algorithm": gen.choice(r, gen.ALGOS), "policies": kids}, dict(gen.choice(r, REQS)), {"strict": r.random() < 0.2}
+
+
 def republish_cases(seed: int, n: int):
     """one engine, two or three documents published one after the other (set_policy / update_policy), requests after each: the
     compiled form in use is the one of the document in force — also when neither document can be fingerprinted (json.dumps
@@ -320,6 +338,7 @@ def run_cases(run: lib.Run, audit: dict, scale: int = 1):
     cases = list(enum_cases(quick))
     n_enum = len(cases)
     cases += list(gc.random_cases(run.seed * 7 + 3, (2000 if quick else 20000) * scale, sets=0.2, algo="explicit", hostile=0.05))
+    cases += list(big_child_sets(run.seed * 23 + 1, (150 if quick else 1500) * scale))
     res = gc.run_batch(cases, consts)
     sess = list(session_cases(run.seed * 13 + 5, (250 if quick else 2500) * scale))
     sess += list(republish_cases(run.seed * 17 + 9, (150 if quick else 1500) * scale))
